@@ -172,8 +172,7 @@ Definition name_encode (n : name) : bytes :=
   tl_enc TYPE_NAME ++ tl_enc (N.of_nat (name_value_length n)) ++ concat n.
 
 (* Name.decode(buf, offset) with [w] = buf[offset:]; returns components and bytes consumed.
-   The loop runs while the remaining declared length is positive; a component that overruns
-   makes the remaining length negative and ends the loop (as in the Python). *)
+   The loop runs while the remaining declared length is positive. *)
 Fixpoint name_decode_loop (fuel : nat) (w : bytes) (remaining : Z) (acc : name) (used : N) : res (name * N) :=
   if (remaining <=? 0)%Z then Ok (rev acc, used)
   else match fuel with
@@ -184,6 +183,9 @@ Fixpoint name_decode_loop (fuel : nat) (w : bytes) (remaining : Z) (acc : name) 
            do lp <- tl_dec (skipn sz1 w) ;;
            let '(len, sz2) := lp in
            let tot := N.of_nat (sz1 + sz2) + len in
+           (* a component may not run past the Name's declared length ("buffer overflow") *)
+           if (remaining <? Z.of_N tot)%Z then Err EIndex
+           else
            (* slices truncate: never convert an attacker-chosen length to nat *)
            let k := N.to_nat (N.min tot (N.of_nat (length w))) in
            name_decode_loop f (skipn k w) (remaining - Z.of_N tot)%Z (firstn k w :: acc) (used + tot)
